@@ -95,6 +95,14 @@ def run(tier, seed):
                     for r in range(4):
                         i += 1
                         cases.append((vt, it, ATOMS[(i + r) % 4], SUBS[(i * 5 + r) % len(SUBS)], BYTEORDERS[(i + r) % 2]))
+        # the number of stored values reaches the maximum of a narrow index type: the start of a trailing
+        # zero-length subarray is then the largest value the index class can hold
+        IMAX = {'int8': 127, 'uint8': 255, 'int16': 32767, 'uint16': 65535}
+        for it in (['int8', 'uint8', 'int16', 'uint16'] if thorough else ['int8', 'uint8', 'uint16']):
+            for j, vt in enumerate(['int32', 'float64'] if thorough else ['int32']):
+                m = IMAX[it]
+                cases.append((vt, it, (), [m, 0], BYTEORDERS[j % 2]))
+                cases.append((vt, it, (), [m - 5, 3, 0, 2, 0, 0], BYTEORDERS[(j + 1) % 2]))
         plans, pyjobs, expected = [], [], {}
         nprog = 0
         for ci, (vt, it, atom, lens, bo) in enumerate(cases):
